@@ -774,6 +774,38 @@ fn run_shard(args: &Args, task: usize) {
             t: rng.range(2, 3) as usize, n: rng.range(2 << 20, 3 << 20) as usize, kind: 5, dseed: rng.next(), size_hint: 0 };
         large_case(&c, &mut rep, &mut pool_l);
     }
+    // ---- "window edge" class: some job k > 0 starts EXACTLY at (1 << lgwin) - 16 + d, d in -2..=2 —
+    // the length where the job's prefix stops fitting the window (dictionary truncation, the shared
+    // index of favor_cpu_efficiency being kept or dropped). Two sites decide this independently
+    // (threading.rs builds/extends the shared index, encode.rs keeps or discards it); an off-by-one
+    // between them shows only at the exact edge. Deterministic grid, spread over the 16 shards.
+    {
+        let mut pool: Pool = brotli::enc::new_work_pool(1 + (task * 3) % 8);
+        let mut idx = 0usize;
+        for &lgwin in &[10i32, 11, 12, 14, 16] {
+            for t in 2usize..=4 {
+                for k in 1..t {
+                    for d in -2i64..=2 {
+                        idx += 1;
+                        if idx % 16 != task { continue; }
+                        if !thorough && lgwin > 12 && d != 0 { continue; }
+                        let target = ((1i64 << lgwin) - 16 + d) as usize;
+                        // smallest n with get_range(k, t, n).0 == target
+                        let mut n = (target * t + k - 1) / k;
+                        while get_range(k, t, n).0 < target { n += 1; }
+                        if get_range(k, t, n).0 != target { continue; }
+                        let mut rng = Rng::new(seed ^ 0xED6E ^ ((idx as u64) << 24));
+                        for &q in &[2i32, 5, 9, 10] {
+                            if !thorough && q == 10 && lgwin > 12 { continue; }
+                            let c = Case { q, lgwin, large: false, favor: true, catable: false, appendable: false, magic: false, t, n, kind: rng.below(5), dseed: rng.next(), size_hint: 0 };
+                            rep.count("edge.cases");
+                            search_case(&c, &mut rep, &mut pool, &mut rng);
+                        }
+                    }
+                }
+            }
+        }
+    }
     // ---- C06 bonus: the REAL pool under the deterministic scheduler shim with REAL compression
     // jobs: random schedules (uniform / sticky / spurious wake-ups) must give the bytes of the
     // inline spawner; the pool is reused for a second call under the same schedule source
